@@ -9,7 +9,8 @@
    (partial); they are evaluated by check_C04 on implementation traces with the
    tolerance stated there. *)
 From Coq Require Import ZArith List Bool.
-From Alliance Require Import Num NumFacts KMap Types Monad Model Step Spec Hoare.
+From Alliance Require Import Num NumFacts KMap Types Monad Model Step Spec Hoare WitnessLib.
+From Alliance.Witness Require Import F_C04_shortcut_dilution F_C04_zero_validator_shares.
 From Alliance.Proofs Require Import Value.
 Import ListNotations.
 Open Scope Z_scope.
@@ -42,6 +43,24 @@ Print Assumptions C04_part_of_whole_is_at_most_one.
 Theorem C04_fraction_never_increases : forall q x, 0 <= q -> q <= ONE -> 0 <= x -> dmul q x <= x.
 Proof. exact dmul_le_r. Qed.
 Print Assumptions C04_fraction_never_increases.
+
+(* The full statement is FALSE of the code in two situations, each shown by a history that was
+   executed on the real implementation and shrunk there (known findings F-C04-1, F-C04-2):
+   clause 31 — entering a validator that holds less than one delegator share of the asset whose
+   stake is still worth tokens (left behind by slashed redelegations) takes that value over;
+   clause 32 — after a 100% slash of every staked validator the asset has no validator shares
+   while tokens remain, and the first entrant captures the whole staked total. *)
+Example C04_refuted_shortcut_dilution : witness_fails 4 31 ops_F_C04_shortcut_dilution = true.
+Proof. vm_compute. reflexivity. Qed.
+Print Assumptions C04_refuted_shortcut_dilution.
+Example C04_refuted_zero_validator_shares : witness_fails 4 32 ops_F_C04_zero_validator_shares = true.
+Proof. vm_compute. reflexivity. Qed.
+Print Assumptions C04_refuted_zero_validator_shares.
+
+(* the model's value function is the reported balance the specification reads *)
+Theorem C04_value_is_reported_balance : forall s k, value_of s k = reported_balance s k.
+Proof. intros s k; destruct k as [|del [|v [|dn [|]]]]; reflexivity. Qed.
+Print Assumptions C04_value_is_reported_balance.
 
 (* non-vacuity: a delegate-then-undelegate round trip in the model returns exactly what was put in
    on a fresh asset, and a second delegator is not affected *)
